@@ -1,4 +1,41 @@
 import StepupModel.K.Scheduler
+/-!
+# `_update_meta_safe`: the refresh of `_safe` / `_safe_ignoring_hold` is correct
+
+Everything lives in `namespace StepupModel.K.MetaSafe`; the pipeline (`_update_meta`, `pop_next_job`)
+and the reachable states are in `Lemmas/MetaSafeReach.lean`.  Imports the model only.
+
+* The model, restated: `stepCreator` (the `LEFT JOIN creator_step` of the seed), `seedRow`, `prodRow`,
+  `expandRows`, `allRows` (the rows of the CTE `trace`), `bestRow` (`MAX(depth)`), `writeBack`;
+  `updateMetaSafe_eq` is the unfolding of `KState.updateMetaSafe` in these terms.
+* Definitions: `SafeLocal`, `SafeNHLocal` (the local equations), `BothLocal`, `SafeConsistent` (all
+  steps), `KeysUnique`, `NoSelfStep`, `AncOrSelf`, `Touched` (flagged or below a flagged step),
+  `CacheInvSafe` (flag discipline, first form: every unflagged step is locally correct),
+  `CacheInvSafeW` (weakest form: every step that is not `Touched` is locally correct), `SafeFrame`,
+  `StepLink`, `StepCreatorWF` (acyclic step-creator links, ALL steps), `safeSpec`, `safeNHSpec`.
+* `Derives`, `allRows_iff`: when the recursion ends its rows are exactly the derivable ones
+  (`go_sound`, `go_complete`); `derives_unique`: one row per node and depth; `hasRow_iff_touched`.
+* `writeBack_touched`: a recomputed row is locally correct afterwards whatever was cached (this is where
+  `MAX(depth)` is used: the deepest row of a step is the child of the deepest row of its creator);
+  `writeBack_untouched`: other rows and their creators keep their pairs.
+* **`updateMetaSafe_correct_iff`**: the refresh establishes all local equations exactly when
+  `CacheInvSafeW` held before (so that discipline is the weakest possible);
+  **`updateMetaSafe_correct`**, `updateMetaSafe_correct'`, **`updateMetaSafe_flags`**,
+  **`updateMetaSafe_frame`**, `updateMetaSafe_keeps`, `updateMetaSafe_nonstep`.
+* `ups_bound` (a creator chain has at most `#rows` members), `safeSpec_local`,
+  **`safeConsistent_unique`** (local equations + acyclic links: the cached pair is the specification),
+  **`safeSpec_iff`** (the specification in words, fuel-free).
+* **`updateMetaSafe_no_hang`** (termination within `#rows + 1` rounds), **`updateMetaSafe_spec`**,
+  **`updateMetaSafe_eq_spec`** (incremental = from scratch).
+* `structView` / `safeView`, `SameStruct` / `SameSafe`: what the specification / the local equations read.
+* `eligible_safe`, **`eligible_creators`**: what `SELECT_NEXT_STEP` may rely on.
+* Executable forms (`safeConsistentB`, `cacheInvSafeB`, `cacheInvSafeWB`, `rankedB`) and the repaired
+  defect on the model: `updateMetaSafeMin` (`MIN(depth)`), `defectWitness`, `defectWitness_duplicates`,
+  **`defectWitness_max`**, **`defectWitness_min`**.
+
+`CacheInvSafeW` is a hypothesis throughout: that the writers of the model flag every step whose
+local equation they may break (or an ancestor of it) is a separate invariant.
+-/
 namespace StepupModel.K.MetaSafe
 
 /-- The step creator of a row, as the seed of `FILL_SAFE_UPDATE` joins it. -/
@@ -680,5 +717,952 @@ theorem writeBack_untouched {s : KState} (hs : NoSelfStep s) {rows : List SafeRo
       intro r hr hrk
       exact h (hasRow_of_creator hs hn hst hc ⟨r, (hrows r).1 hr, hrk⟩)
     simp only [applyRows_norow hnoc]
+
+/-! ## `_update_meta_safe` -/
+
+theorem mem_writeBack {s : KState} {rows : List SafeRow} {n' : Node} :
+    n' ∈ (writeBack s rows).nodes ↔ ∃ n ∈ s.nodes, n' = G rows n := by
+  unfold writeBack
+  simp only [List.mem_map]
+  constructor
+  · rintro ⟨n, hn, rfl⟩; exact ⟨n, hn, rfl⟩
+  · rintro ⟨n, hn, rfl⟩; exact ⟨n, hn, rfl⟩
+
+/-- The two ways `_update_meta_safe` ends without an error: nothing is flagged and nothing is
+written, or the rows of `trace` are written back. -/
+theorem updateMetaSafe_cases {s s' : KState} (h : s.updateMetaSafe = .ok s') :
+    (flagged s = [] ∧ s' = s) ∨ (∃ rows, allRows s = some rows ∧ s' = writeBack s rows) := by
+  rw [updateMetaSafe_eq] at h
+  split at h
+  · rename_i he
+    left
+    refine ⟨List.isEmpty_iff.1 he, ?_⟩
+    cases h; rfl
+  · split at h
+    · cases h
+    · rename_i rows hr
+      right
+      refine ⟨rows, hr, ?_⟩
+      cases h; rfl
+
+/-- The row without the three columns that `_update_meta_safe` writes. -/
+def eraseSafe (n : Node) : Node := { n with safe := false, safeNH := false, checkSafe := false }
+
+/-- `s'` differs from `s` at most in `_safe`, `_safe_ignoring_hold`, `_check_safe` of its rows (same
+rows in the same order, same dependency table, same deletion queue). -/
+def SafeFrame (s s' : KState) : Prop :=
+  s'.deps = s.deps ∧ s'.toBeDeleted = s.toBeDeleted ∧ s'.nodes.map eraseSafe = s.nodes.map eraseSafe
+
+theorem SafeFrame.refl (s : KState) : SafeFrame s s := ⟨rfl, rfl, rfl⟩
+
+theorem eraseSafe_G (rows : List SafeRow) (n : Node) : eraseSafe (G rows n) = eraseSafe n := by
+  unfold G clearFlag applyRows setBest eraseSafe
+  split <;> split <;> (try split) <;> rfl
+
+theorem frame_writeBack (s : KState) (rows : List SafeRow) : SafeFrame s (writeBack s rows) := by
+  refine ⟨rfl, rfl, ?_⟩
+  unfold writeBack
+  simp only [List.map_map]
+  apply List.map_congr_left
+  intro n _
+  exact eraseSafe_G rows n
+
+/-- **Frame.**  `_update_meta_safe` changes nothing but the three columns it owns. -/
+theorem updateMetaSafe_frame {s s' : KState} (h : s.updateMetaSafe = .ok s') : SafeFrame s s' := by
+  rcases updateMetaSafe_cases h with ⟨_, rfl⟩ | ⟨rows, _, rfl⟩
+  · exact SafeFrame.refl _
+  · exact frame_writeBack s rows
+
+theorem G_checkSafe {rows : List SafeRow} {n : Node} (h : n.key.kind = .step) : (G rows n).checkSafe = false := by
+  unfold G clearFlag
+  rw [applyRows_key]
+  simp only [h, decide_true, if_true]
+
+/-- **Flags.**  After `_update_meta_safe` no step is flagged. -/
+theorem updateMetaSafe_flags {s s' : KState} (h : s.updateMetaSafe = .ok s') :
+    ∀ n ∈ s'.nodes, n.key.kind = .step → n.checkSafe = false := by
+  rcases updateMetaSafe_cases h with ⟨he, rfl⟩ | ⟨rows, _, rfl⟩
+  · intro n hn hst
+    cases hf : n.checkSafe with
+    | false => rfl
+    | true =>
+      have := mem_flagged.2 ⟨hn, hst, hf⟩
+      rw [he] at this; cases this
+  · intro n' hn' hst
+    obtain ⟨n, hn, rfl⟩ := mem_writeBack.1 hn'
+    rw [G_key] at hst
+    exact G_checkSafe hst
+
+/-- **Correctness, with the weakest discipline.**  On a table with one row per key and no step that is
+its own creator, a refresh that ends establishes both local equations of every step exactly when the
+cached pairs of the steps it does not recompute (not flagged, not below a flagged step) satisfied
+theirs before. -/
+theorem updateMetaSafe_correct_iff {s s' : KState} (hk : KeysUnique s) (hs : NoSelfStep s)
+    (h : s.updateMetaSafe = .ok s') : SafeConsistent s' ↔ CacheInvSafeW s := by
+  rcases updateMetaSafe_cases h with ⟨he, rfl⟩ | ⟨rows, hr, rfl⟩
+  · constructor
+    · intro hc n hn hst _; exact hc n hn hst
+    · intro hc n hn hst
+      refine hc n hn hst ?_
+      rintro ⟨a, ha, _⟩
+      rw [he] at ha; cases ha
+  · have hrows := allRows_iff hr
+    constructor
+    · intro hc n hn hst ht
+      have hnr : ¬ HasRow s n := fun hh => ht ((hasRow_iff_touched hk hs hn hst).1 hh)
+      have := hc (G rows n) (mem_writeBack.2 ⟨n, hn, rfl⟩) (by rw [G_key]; exact hst)
+      exact (writeBack_untouched hs hrows hn hst hnr).1 this
+    · intro hc n' hn' hst
+      obtain ⟨n, hn, rfl⟩ := mem_writeBack.1 hn'
+      rw [G_key] at hst
+      by_cases hh : HasRow s n
+      · exact writeBack_touched hk hs hrows hn hst hh
+      · have ht : ¬ Touched s n := fun ht => hh ((hasRow_iff_touched hk hs hn hst).2 ht)
+        exact (writeBack_untouched hs hrows hn hst hh).2 (hc n hn hst ht)
+
+/-- **Correctness.**  Under the flag discipline (weakest form) every step satisfies both local
+equations after the refresh. -/
+theorem updateMetaSafe_correct {s s' : KState} (hk : KeysUnique s) (hs : NoSelfStep s) (hc : CacheInvSafeW s)
+    (h : s.updateMetaSafe = .ok s') : SafeConsistent s' :=
+  (updateMetaSafe_correct_iff hk hs h).2 hc
+
+/-- The same under the first form of the discipline (every unflagged step is locally correct). -/
+theorem updateMetaSafe_correct' {s s' : KState} (hk : KeysUnique s) (hs : NoSelfStep s) (hc : CacheInvSafe s)
+    (h : s.updateMetaSafe = .ok s') : SafeConsistent s' :=
+  updateMetaSafe_correct hk hs hc.weak h
+
+/-- A step that is neither flagged nor below a flagged step keeps its cached pair. -/
+theorem updateMetaSafe_keeps {s s' : KState} (hk : KeysUnique s) (hs : NoSelfStep s)
+    (h : s.updateMetaSafe = .ok s') {n : Node} (hn : n ∈ s.nodes) (hst : n.key.kind = .step) (ht : ¬ Touched s n) :
+    ∃ n' ∈ s'.nodes, n'.key = n.key ∧ n'.safe = n.safe ∧ n'.safeNH = n.safeNH := by
+  rcases updateMetaSafe_cases h with ⟨_, rfl⟩ | ⟨rows, hr, rfl⟩
+  · exact ⟨n, hn, rfl, rfl, rfl⟩
+  · have hrows := allRows_iff hr
+    refine ⟨G rows n, mem_writeBack.2 ⟨n, hn, rfl⟩, G_key rows n, ?_⟩
+    have hno : ∀ r ∈ rows, r.key ≠ n.key := fun r hr' hrk =>
+      ht ((hasRow_iff_touched hk hs hn hst).1 ⟨r, (hrows r).1 hr', hrk⟩)
+    rw [G_safe, G_safeNH, applyRows_norow hno]
+    exact ⟨rfl, rfl⟩
+
+/-- Rows that are not steps are not written at all. -/
+theorem updateMetaSafe_nonstep {s s' : KState} (h : s.updateMetaSafe = .ok s') {n : Node}
+    (hn : n ∈ s.nodes) (hst : n.key.kind ≠ .step) : n ∈ s'.nodes := by
+  rcases updateMetaSafe_cases h with ⟨_, rfl⟩ | ⟨rows, hr, rfl⟩
+  · exact hn
+  · have hrows := allRows_iff hr
+    have hno : ∀ r ∈ rows, r.key ≠ n.key := by
+      intro r hr' hrk
+      obtain ⟨c, _, hck, hcs, _⟩ := derives_node ((hrows r).1 hr')
+      rw [hck, hrk] at hcs
+      exact hst hcs
+    refine mem_writeBack.2 ⟨n, hn, ?_⟩
+    unfold G clearFlag
+    rw [applyRows_norow hno]
+    simp only [hst, decide_false, Bool.false_eq_true, if_false]
+
+/-! ## Specification from scratch, acyclic creator links -/
+
+/-- `c` is the step creator of the step `k`. -/
+def StepLink (s : KState) (c k : Key) : Prop :=
+  ∃ n cn, n ∈ s.nodes ∧ n.key = k ∧ k.kind = .step ∧ stepCreator s n = some cn ∧ cn.key = c
+
+/-- The step-creates-step links have no cycle (ALL steps, attached or not). -/
+def StepCreatorWF (s : KState) : Prop := WellFounded (StepLink s)
+
+theorem wf_irrefl {α : Type} {r : α → α → Prop} (h : WellFounded r) (a : α) : ¬ r a a := by
+  refine h.induction (C := fun x => ¬ r x x) a ?_
+  intro x ih hxx
+  exact ih x hxx hxx
+
+theorem noSelfStep_of_wf {s : KState} (h : StepCreatorWF s) : NoSelfStep s := by
+  intro n hn hst hc
+  cases hf : s.find? n.key with
+  | none =>
+    have := List.find?_eq_none.1 hf n hn
+    simp at this
+  | some n' =>
+    have hsc : stepCreator s n = some n' := by
+      unfold stepCreator
+      simp only [hc, hst, if_true]
+      exact hf
+    exact wf_irrefl h n.key ⟨n, n', hn, rfl, hst, hsc, find_key hf⟩
+
+/-- The first `fuel` recursive step creators of a row, nearest first. -/
+def ups (s : KState) : Nat → Node → List Node
+  | 0, _ => []
+  | fuel + 1, n =>
+    match stepCreator s n with
+    | some c => c :: ups s fuel c
+    | none => []
+
+/-- `_safe` from scratch: walk up the creator links. -/
+def safeSpecAux (s : KState) : Nat → Node → Bool
+  | 0, _ => true
+  | fuel + 1, n =>
+    match stepCreator s n with
+    | some c => safeSpecAux s fuel c && c.sstate.active && c.holding == 0
+    | none => true
+
+/-- `_safe_ignoring_hold` from scratch. -/
+def safeNHSpecAux (s : KState) : Nat → Node → Bool
+  | 0, _ => true
+  | fuel + 1, n =>
+    match stepCreator s n with
+    | some c => safeNHSpecAux s fuel c && c.sstate.active
+    | none => true
+
+/-- **Specification of `_safe`**: every recursive step creator is RUNNING or SUCCEEDED and holds
+nothing (a chain of creators has at most `#rows` members). -/
+def safeSpec (s : KState) (n : Node) : Bool := safeSpecAux s s.nodes.length n
+
+/-- **Specification of `_safe_ignoring_hold`**: every recursive step creator is RUNNING or SUCCEEDED. -/
+def safeNHSpec (s : KState) (n : Node) : Bool := safeNHSpecAux s s.nodes.length n
+
+theorem safeSpecAux_ups (s : KState) (fuel : Nat) (n : Node) :
+    safeSpecAux s fuel n = (ups s fuel n).all fun c => c.sstate.active && c.holding == 0 := by
+  induction fuel generalizing n with
+  | zero => rfl
+  | succ f ih =>
+    unfold safeSpecAux ups
+    cases stepCreator s n with
+    | none => rfl
+    | some c =>
+      simp only [List.all_cons, ih c]
+      cases c.sstate.active <;> cases (c.holding == 0) <;> simp
+
+theorem safeNHSpecAux_ups (s : KState) (fuel : Nat) (n : Node) :
+    safeNHSpecAux s fuel n = (ups s fuel n).all fun c => c.sstate.active := by
+  induction fuel generalizing n with
+  | zero => rfl
+  | succ f ih =>
+    unfold safeNHSpecAux ups
+    cases stepCreator s n with
+    | none => rfl
+    | some c =>
+      simp only [List.all_cons, ih c]
+      cases c.sstate.active <;> simp
+
+theorem ups_length_le (s : KState) (fuel : Nat) (n : Node) : (ups s fuel n).length ≤ fuel := by
+  induction fuel generalizing n with
+  | zero => exact Nat.le_refl _
+  | succ f ih =>
+    unfold ups
+    cases stepCreator s n with
+    | none => exact Nat.zero_le _
+    | some c => simp only [List.length_cons]; have := ih c; omega
+
+/-- Once the chain has ended, more fuel changes nothing. -/
+theorem ups_stable (s : KState) : ∀ (f : Nat) (n : Node), (ups s f n).length < f → ∀ g, f ≤ g → ups s g n = ups s f n := by
+  intro f
+  induction f with
+  | zero => intro n h; cases h
+  | succ f ih =>
+    intro n h g hg
+    obtain ⟨g', rfl⟩ : ∃ g', g = g' + 1 := ⟨g - 1, by omega⟩
+    unfold ups at h ⊢
+    cases hc : stepCreator s n with
+    | none => rfl
+    | some c =>
+      simp only [hc, List.length_cons] at h
+      simp only
+      rw [ih c (by omega) g' (by omega)]
+
+theorem ups_links {s : KState} : ∀ (f : Nat) (n : Node), n ∈ s.nodes → n.key.kind = .step →
+    ∀ a ∈ ups s f n, Relation.TransGen (StepLink s) a.key n.key ∧ a ∈ s.nodes := by
+  intro f
+  induction f with
+  | zero => intro n _ _ a ha; cases ha
+  | succ f ih =>
+    intro n hn hst a ha
+    unfold ups at ha
+    cases hc : stepCreator s n with
+    | none => simp only [hc] at ha; cases ha
+    | some c =>
+      simp only [hc] at ha
+      obtain ⟨c1, c2, _⟩ := stepCreator_some hc
+      have hl : StepLink s c.key n.key := ⟨n, c, hn, rfl, hst, hc, rfl⟩
+      rcases List.mem_cons.1 ha with rfl | ha'
+      · exact ⟨.single hl, c1⟩
+      · obtain ⟨h1, h2⟩ := ih c c1 c2 a ha'
+        exact ⟨.tail h1 hl, h2⟩
+
+theorem ups_chain {s : KState} : ∀ (f : Nat) (n : Node), n ∈ s.nodes → n.key.kind = .step →
+    (n.key :: (ups s f n).map (·.key)).Pairwise fun a b => Relation.TransGen (StepLink s) b a := by
+  intro f
+  induction f with
+  | zero =>
+    intro n _ _
+    simp [ups]
+  | succ f ih =>
+    intro n hn hst
+    rw [List.pairwise_cons]
+    constructor
+    · intro b hb
+      obtain ⟨a, ha, rfl⟩ := List.mem_map.1 hb
+      exact (ups_links (f + 1) n hn hst a ha).1
+    · unfold ups
+      cases hc : stepCreator s n with
+      | none => simp
+      | some c =>
+        obtain ⟨c1, c2, _⟩ := stepCreator_some hc
+        exact ih c c1 c2
+
+theorem length_le_of_nodup_subset {l l' : List Key} (hn : l.Nodup) (hs : ∀ x ∈ l, x ∈ l') :
+    l.length ≤ l'.length := by
+  induction l generalizing l' with
+  | nil => exact Nat.zero_le _
+  | cons a t ih =>
+    rw [List.nodup_cons] at hn
+    have ha : a ∈ l' := hs a List.mem_cons_self
+    have ht : ∀ x ∈ t, x ∈ l'.erase a := by
+      intro x hx
+      have hne : x ≠ a := fun h => hn.1 (h ▸ hx)
+      exact (List.mem_erase_of_ne hne).2 (hs x (List.mem_cons_of_mem _ hx))
+    have h1 := ih hn.2 ht
+    rw [List.length_erase_of_mem ha] at h1
+    have h2 : 0 < l'.length := List.length_pos_of_mem ha
+    simp only [List.length_cons]
+    omega
+
+/-- **Chains are short.**  With acyclic step-creator links a step and its recursive step creators
+are different rows: there are at most `#rows` of them. -/
+theorem ups_bound {s : KState} (hwf : StepCreatorWF s) (f : Nat) {n : Node} (hn : n ∈ s.nodes)
+    (hst : n.key.kind = .step) : (ups s f n).length + 1 ≤ s.nodes.length := by
+  have hch := ups_chain f n hn hst
+  have hnd : (n.key :: (ups s f n).map (·.key)).Nodup := by
+    refine List.Pairwise.imp ?_ hch
+    intro a b hab he
+    exact wf_irrefl hwf.transGen a (he ▸ hab)
+  have hsub : ∀ x ∈ n.key :: (ups s f n).map (·.key), x ∈ s.nodes.map (·.key) := by
+    intro x hx
+    rcases List.mem_cons.1 hx with rfl | hx
+    · exact List.mem_map.2 ⟨n, hn, rfl⟩
+    · obtain ⟨a, ha, rfl⟩ := List.mem_map.1 hx
+      exact List.mem_map.2 ⟨a, (ups_links f n hn hst a ha).2, rfl⟩
+  have := length_le_of_nodup_subset hnd hsub
+  simpa using this
+
+theorem ups_succ_eq {s : KState} (hwf : StepCreatorWF s) {n : Node} (hn : n ∈ s.nodes) (hst : n.key.kind = .step) :
+    ups s (s.nodes.length + 1) n = ups s s.nodes.length n := by
+  have := ups_bound hwf s.nodes.length hn hst
+  exact ups_stable s _ n (by omega) _ (by omega)
+
+/-- The specification satisfies the local equation. -/
+theorem safeSpec_local {s : KState} (hwf : StepCreatorWF s) {n : Node} (hn : n ∈ s.nodes) (hst : n.key.kind = .step) :
+    safeSpec s n = match stepCreator s n with
+      | some c => safeSpec s c && c.sstate.active && c.holding == 0
+      | none => true := by
+  have h1 : safeSpec s n = safeSpecAux s (s.nodes.length + 1) n := by
+    unfold safeSpec
+    rw [safeSpecAux_ups, safeSpecAux_ups, ups_succ_eq hwf hn hst]
+  rw [h1]
+  rfl
+
+theorem safeNHSpec_local {s : KState} (hwf : StepCreatorWF s) {n : Node} (hn : n ∈ s.nodes) (hst : n.key.kind = .step) :
+    safeNHSpec s n = match stepCreator s n with
+      | some c => safeNHSpec s c && c.sstate.active
+      | none => true := by
+  have h1 : safeNHSpec s n = safeNHSpecAux s (s.nodes.length + 1) n := by
+    unfold safeNHSpec
+    rw [safeNHSpecAux_ups, safeNHSpecAux_ups, ups_succ_eq hwf hn hst]
+  rw [h1]
+  rfl
+
+/-- Induction along the step-creator links. -/
+theorem stepCreator_induction {s : KState} (hwf : StepCreatorWF s) (P : Node → Prop)
+    (step : ∀ n ∈ s.nodes, n.key.kind = .step → (∀ c, stepCreator s n = some c → P c) → P n) :
+    ∀ n ∈ s.nodes, n.key.kind = .step → P n := by
+  have key : ∀ k : Key, ∀ n ∈ s.nodes, n.key = k → n.key.kind = .step → P n := by
+    intro k
+    refine hwf.induction (C := fun k => ∀ n ∈ s.nodes, n.key = k → n.key.kind = .step → P n) k ?_
+    intro k ih n hn hk hst
+    refine step n hn hst ?_
+    intro c hc
+    obtain ⟨c1, c2, _⟩ := stepCreator_some hc
+    exact ih c.key ⟨n, c, hn, hk, hk ▸ hst, hc, rfl⟩ c c1 rfl c2
+  intro n hn hst
+  exact key n.key n hn rfl hst
+
+/-- **Uniqueness.**  With acyclic step-creator links the local equations have one solution: the
+cached pair of every step is the value of the specification. -/
+theorem safeConsistent_unique {s : KState} (hwf : StepCreatorWF s) (hc : SafeConsistent s) :
+    ∀ n ∈ s.nodes, n.key.kind = .step → n.safe = safeSpec s n ∧ n.safeNH = safeNHSpec s n := by
+  refine stepCreator_induction hwf _ ?_
+  intro n hn hst ih
+  obtain ⟨h1, h2⟩ := hc n hn hst
+  unfold SafeLocal localSafe at h1
+  unfold SafeNHLocal localSafeNH at h2
+  rw [h1, h2, safeSpec_local hwf hn hst, safeNHSpec_local hwf hn hst]
+  cases hsc : stepCreator s n with
+  | none => exact ⟨rfl, rfl⟩
+  | some c =>
+    obtain ⟨e1, e2⟩ := ih c hsc
+    simp only [e1, e2, and_self]
+
+/-- `a` is a recursive step creator of `n`. -/
+def StrictAnc (s : KState) (a n : Node) : Prop := ∃ c, stepCreator s n = some c ∧ AncOrSelf s a c
+
+/-- The specification says what its name says, whatever the fuel. -/
+theorem safeSpec_iff {s : KState} (hwf : StepCreatorWF s) :
+    ∀ n ∈ s.nodes, n.key.kind = .step →
+      ((safeSpec s n = true ↔ ∀ a, StrictAnc s a n → a.sstate.active = true ∧ a.holding = 0) ∧
+       (safeNHSpec s n = true ↔ ∀ a, StrictAnc s a n → a.sstate.active = true)) := by
+  refine stepCreator_induction hwf _ ?_
+  intro n hn hst ih
+  rw [safeSpec_local hwf hn hst, safeNHSpec_local hwf hn hst]
+  cases hsc : stepCreator s n with
+  | none =>
+    refine ⟨⟨fun _ a ha => ?_, fun _ => rfl⟩, ⟨fun _ a ha => ?_, fun _ => rfl⟩⟩
+    · obtain ⟨c, hc, _⟩ := ha; rw [hsc] at hc; cases hc
+    · obtain ⟨c, hc, _⟩ := ha; rw [hsc] at hc; cases hc
+  | some c =>
+    obtain ⟨i1, i2⟩ := ih c hsc
+    simp only [Bool.and_eq_true, beq_iff_eq]
+    constructor
+    · constructor
+      · rintro ⟨⟨h1, h2⟩, h3⟩ a ⟨c', hc', hanc⟩
+        rw [hsc] at hc'; cases hc'
+        cases hanc with
+        | refl => exact ⟨h2, h3⟩
+        | up hcc hanc' => exact i1.1 h1 a ⟨_, hcc, hanc'⟩
+      · intro h
+        have hc := h c ⟨c, hsc, AncOrSelf.refl c⟩
+        refine ⟨⟨i1.2 ?_, hc.1⟩, hc.2⟩
+        rintro a ⟨c', hc', hanc⟩
+        exact h a ⟨c, hsc, AncOrSelf.up hc' hanc⟩
+    · constructor
+      · rintro ⟨h1, h2⟩ a ⟨c', hc', hanc⟩
+        rw [hsc] at hc'; cases hc'
+        cases hanc with
+        | refl => exact h2
+        | up hcc hanc' => exact i2.1 h1 a ⟨_, hcc, hanc'⟩
+      · intro h
+        refine ⟨i2.2 ?_, h c ⟨c, hsc, AncOrSelf.refl c⟩⟩
+        rintro a ⟨c', hc', hanc⟩
+        exact h a ⟨c, hsc, AncOrSelf.up hc' hanc⟩
+
+/-! ## Termination -/
+
+/-- A row of depth `d` belongs to a step with at least `d` recursive step creators. -/
+theorem derives_depth {s : KState} (hk : KeysUnique s) {r : SafeRow} (h : Derives s r) :
+    ∃ n ∈ s.nodes, n.key = r.key ∧ n.key.kind = .step ∧ (ups s r.depth n).length = r.depth := by
+  induction h with
+  | seed n hn =>
+    obtain ⟨h1, h2, _⟩ := mem_flagged.1 hn
+    exact ⟨n, h1, rfl, h2, rfl⟩
+  | prod r p _ hp ih =>
+    obtain ⟨p1, p2, p3, _⟩ := mem_stepProducts.1 hp
+    obtain ⟨c, hc, hck, hcs, hlen⟩ := ih
+    have hsc : stepCreator s p = some c := stepCreator_of hk hc hcs (by rw [hck]; exact p3)
+    refine ⟨p, p1, rfl, p2, ?_⟩
+    show (ups s (r.depth + 1) p).length = r.depth + 1
+    unfold ups
+    simp only [hsc, List.length_cons, hlen]
+
+theorem derives_depth_bound {s : KState} (hk : KeysUnique s) (hwf : StepCreatorWF s) {r : SafeRow} (h : Derives s r) :
+    r.depth + 1 ≤ s.nodes.length := by
+  obtain ⟨n, hn, _, hst, hlen⟩ := derives_depth hk h
+  have := ups_bound hwf r.depth hn hst
+  omega
+
+theorem go_terminates {s : KState} (hk : KeysUnique s) (hwf : StepCreatorWF s) :
+    ∀ (fuel : Nat) (fr acc : List SafeRow) (d : Nat), (∀ r ∈ fr, Derives s r ∧ r.depth = d) →
+      s.nodes.length ≤ d + fuel → ∃ rows, go s fuel fr acc = some rows := by
+  intro fuel
+  induction fuel with
+  | zero =>
+    intro fr acc d hfr hd
+    rw [go_zero]
+    cases fr with
+    | nil => exact ⟨acc, rfl⟩
+    | cons r t =>
+      obtain ⟨h1, h2⟩ := hfr r List.mem_cons_self
+      have := derives_depth_bound hk hwf h1
+      omega
+  | succ fuel ih =>
+    intro fr acc d hfr hd
+    rw [go_succ]
+    split
+    · exact ⟨acc, rfl⟩
+    · refine ih _ _ (d + 1) ?_ (by omega)
+      intro q hq
+      obtain ⟨r, hr, p, hp, rfl⟩ := mem_expandRows.1 hq
+      obtain ⟨h1, h2⟩ := hfr r hr
+      exact ⟨Derives.prod r p h1 hp, by rw [prodRow_depth, h2]⟩
+
+/-- **Termination.**  With one row per key and acyclic step-creator links `_update_meta_safe` never
+hangs: the recursion of `FILL_SAFE_UPDATE` ends within `#rows + 1` rounds. -/
+theorem updateMetaSafe_no_hang {s : KState} (hk : KeysUnique s) (hwf : StepCreatorWF s) :
+    ∃ s', s.updateMetaSafe = .ok s' := by
+  rw [updateMetaSafe_eq]
+  split
+  · exact ⟨s, rfl⟩
+  · have : ∃ rows, allRows s = some rows := by
+      unfold allRows
+      refine go_terminates hk hwf _ _ _ 0 ?_ (by omega)
+      intro q hq
+      obtain ⟨n, hn, rfl⟩ := List.mem_map.1 hq
+      exact ⟨Derives.seed n hn, rfl⟩
+    obtain ⟨rows, hr⟩ := this
+    rw [hr]
+    exact ⟨writeBack s rows, rfl⟩
+
+/-- **Everything together.**  One row per key, acyclic step-creator links, the flag discipline in
+its weakest form: the refresh ends, changes only its three columns, clears all flags, and afterwards
+the cached pair of every step is the value of the specification. -/
+theorem updateMetaSafe_spec {s : KState} (hk : KeysUnique s) (hwf : StepCreatorWF s) (hc : CacheInvSafeW s) :
+    ∃ s', s.updateMetaSafe = .ok s' ∧ SafeFrame s s' ∧
+      (∀ n ∈ s'.nodes, n.key.kind = .step → n.checkSafe = false ∧ SafeLocal s' n ∧ SafeNHLocal s' n) := by
+  obtain ⟨s', h⟩ := updateMetaSafe_no_hang hk hwf
+  have hcons := updateMetaSafe_correct hk (noSelfStep_of_wf hwf) hc h
+  refine ⟨s', h, updateMetaSafe_frame h, ?_⟩
+  intro n hn hst
+  exact ⟨updateMetaSafe_flags h n hn hst, hcons n hn hst⟩
+
+/-! ## States that agree on what the safe columns depend on -/
+
+/-- What the specification reads of a row. -/
+def structView (n : Node) : Key × Option Key × StepState × Nat := (n.key, n.creator, n.sstate, n.holding)
+
+/-- What the local equations read of a row. -/
+def safeView (n : Node) : Key × Option Key × StepState × Nat × Bool × Bool :=
+  (n.key, n.creator, n.sstate, n.holding, n.safe, n.safeNH)
+
+/-- Same rows in the same order up to the columns outside `structView`. -/
+def SameStruct (s s' : KState) : Prop := s'.nodes.map structView = s.nodes.map structView
+
+/-- Same rows in the same order up to the columns outside `safeView`. -/
+def SameSafe (s s' : KState) : Prop := s'.nodes.map safeView = s.nodes.map safeView
+
+theorem structView_of_safeView {n m : Node} (h : safeView n = safeView m) : structView n = structView m := by
+  unfold safeView at h
+  unfold structView
+  simp only [Prod.mk.injEq] at h ⊢
+  exact ⟨h.1, h.2.1, h.2.2.1, h.2.2.2.1⟩
+
+theorem map_eq_of_pointwise {α β γ : Type} (v : α → β) (w : α → γ) (hw : ∀ a b, v a = v b → w a = w b) :
+    ∀ (l l' : List α), l'.map v = l.map v → l'.map w = l.map w := by
+  intro l
+  induction l with
+  | nil =>
+    intro l' h
+    cases l' with
+    | nil => rfl
+    | cons a t => cases h
+  | cons a t ih =>
+    intro l' h
+    cases l' with
+    | nil => cases h
+    | cons b u =>
+      simp only [List.map_cons, List.cons.injEq] at h ⊢
+      exact ⟨hw _ _ h.1, ih u h.2⟩
+
+theorem SameSafe.struct {s s' : KState} (h : SameSafe s s') : SameStruct s s' :=
+  map_eq_of_pointwise safeView structView (fun _ _ => structView_of_safeView) _ _ h
+
+theorem SameStruct.symm {s s' : KState} (h : SameStruct s s') : SameStruct s' s := Eq.symm h
+theorem SameSafe.symm {s s' : KState} (h : SameSafe s s') : SameSafe s' s := Eq.symm h
+theorem SameStruct.trans {a b c : KState} (h1 : SameStruct a b) (h2 : SameStruct b c) : SameStruct a c :=
+  Eq.trans h2 h1
+theorem SameSafe.trans {a b c : KState} (h1 : SameSafe a b) (h2 : SameSafe b c) : SameSafe a c :=
+  Eq.trans h2 h1
+
+theorem SafeFrame.struct {s s' : KState} (h : SafeFrame s s') : SameStruct s s' :=
+  map_eq_of_pointwise eraseSafe structView (fun a b hab => by
+    have h1 := congrArg Node.key hab
+    have h2 := congrArg Node.creator hab
+    have h3 := congrArg Node.sstate hab
+    have h4 := congrArg Node.holding hab
+    unfold structView
+    simp only [eraseSafe] at h1 h2 h3 h4
+    rw [h1, h2, h3, h4]) _ _ h.2.2
+
+theorem mem_of_map_eq {α β : Type} (v : α → β) {l l' : List α} (h : l'.map v = l.map v) {a : α} (ha : a ∈ l') :
+    ∃ b ∈ l, v a = v b := by
+  have : v a ∈ l.map v := h ▸ List.mem_map.2 ⟨a, ha, rfl⟩
+  obtain ⟨b, hb, e⟩ := List.mem_map.1 this
+  exact ⟨b, hb, e.symm⟩
+
+theorem find?_view {β : Type} (v : Node → β) (hv : ∀ a b, v a = v b → a.key = b.key) (k : Key) :
+    ∀ (l l' : List Node), l'.map v = l.map v →
+      (l'.find? fun n => decide (n.key = k)).map v = (l.find? fun n => decide (n.key = k)).map v := by
+  intro l
+  induction l with
+  | nil =>
+    intro l' h
+    cases l' with
+    | nil => rfl
+    | cons a t => cases h
+  | cons a t ih =>
+    intro l' h
+    cases l' with
+    | nil => cases h
+    | cons b u =>
+      simp only [List.map_cons, List.cons.injEq] at h
+      have hk := hv _ _ h.1
+      simp only [List.find?_cons, hk]
+      split
+      · simp only [Option.map_some, h.1]
+      · exact ih u h.2
+
+theorem structView_key {a b : Node} (h : structView a = structView b) : a.key = b.key := by
+  unfold structView at h; simp only [Prod.mk.injEq] at h; exact h.1
+theorem structView_creator {a b : Node} (h : structView a = structView b) : a.creator = b.creator := by
+  unfold structView at h; simp only [Prod.mk.injEq] at h; exact h.2.1
+theorem structView_sstate {a b : Node} (h : structView a = structView b) : a.sstate = b.sstate := by
+  unfold structView at h; simp only [Prod.mk.injEq] at h; exact h.2.2.1
+theorem structView_holding {a b : Node} (h : structView a = structView b) : a.holding = b.holding := by
+  unfold structView at h; simp only [Prod.mk.injEq] at h; exact h.2.2.2
+theorem safeView_safe {a b : Node} (h : safeView a = safeView b) : a.safe = b.safe := by
+  unfold safeView at h; simp only [Prod.mk.injEq] at h; exact h.2.2.2.2.1
+theorem safeView_safeNH {a b : Node} (h : safeView a = safeView b) : a.safeNH = b.safeNH := by
+  unfold safeView at h; simp only [Prod.mk.injEq] at h; exact h.2.2.2.2.2
+
+/-- The step creators of corresponding rows correspond. -/
+theorem stepCreator_view {β : Type} (v : Node → β) (hv : ∀ a b, v a = v b → structView a = structView b)
+    {s s' : KState} (h : s'.nodes.map v = s.nodes.map v) {n n' : Node} (hn : v n' = v n) :
+    (stepCreator s' n').map v = (stepCreator s n).map v := by
+  unfold stepCreator
+  rw [structView_creator (hv _ _ hn)]
+  cases n.creator with
+  | none => rfl
+  | some c =>
+    simp only
+    split
+    · exact find?_view v (fun a b hab => structView_key (hv a b hab)) c _ _ h
+    · rfl
+
+theorem stepCreator_view_some {β : Type} (v : Node → β) (hv : ∀ a b, v a = v b → structView a = structView b)
+    {s s' : KState} (h : s'.nodes.map v = s.nodes.map v) {n n' c' : Node} (hn : v n' = v n)
+    (hc : stepCreator s' n' = some c') : ∃ c, stepCreator s n = some c ∧ v c' = v c := by
+  have := stepCreator_view v hv h hn
+  rw [hc] at this
+  cases hsc : stepCreator s n with
+  | none => rw [hsc] at this; cases this
+  | some c =>
+    rw [hsc] at this
+    exact ⟨c, rfl, Option.some.inj this⟩
+
+theorem stepCreator_view_none {β : Type} (v : Node → β) (hv : ∀ a b, v a = v b → structView a = structView b)
+    {s s' : KState} (h : s'.nodes.map v = s.nodes.map v) {n n' : Node} (hn : v n' = v n)
+    (hc : stepCreator s' n' = none) : stepCreator s n = none := by
+  have := stepCreator_view v hv h hn
+  rw [hc] at this
+  cases hsc : stepCreator s n with
+  | none => rfl
+  | some c => rw [hsc] at this; cases this
+
+theorem stepLink_struct {s s' : KState} (h : SameStruct s s') {c k : Key} (hl : StepLink s' c k) : StepLink s c k := by
+  obtain ⟨n', cn', hn', hk, hst, hsc, hck⟩ := hl
+  obtain ⟨n, hn, e⟩ := mem_of_map_eq structView h hn'
+  obtain ⟨cn, hcn, e2⟩ := stepCreator_view_some structView (fun _ _ x => x) h e hsc
+  exact ⟨n, cn, hn, by rw [← structView_key e]; exact hk, hst, hcn, by rw [← structView_key e2]; exact hck⟩
+
+/-- Acyclicity of the step-creator links is a property of the `structView`. -/
+theorem stepCreatorWF_struct {s s' : KState} (h : SameStruct s s') (hwf : StepCreatorWF s) : StepCreatorWF s' :=
+  Subrelation.wf (fun {_ _} hl => stepLink_struct h hl) hwf
+
+theorem keysUnique_struct {s s' : KState} (h : SameStruct s s') (hk : KeysUnique s) : KeysUnique s' := by
+  unfold KeysUnique at *
+  have := map_eq_of_pointwise structView (·.key) (fun _ _ => structView_key) _ _ h
+  rw [this]; exact hk
+
+theorem safeSpecAux_struct {s s' : KState} (h : SameStruct s s') :
+    ∀ (f : Nat) (n n' : Node), structView n' = structView n →
+      safeSpecAux s' f n' = safeSpecAux s f n ∧ safeNHSpecAux s' f n' = safeNHSpecAux s f n := by
+  intro f
+  induction f with
+  | zero => intro n n' _; exact ⟨rfl, rfl⟩
+  | succ f ih =>
+    intro n n' e
+    unfold safeSpecAux safeNHSpecAux
+    cases hsc : stepCreator s' n' with
+    | none =>
+      rw [stepCreator_view_none structView (fun _ _ x => x) h e hsc]
+      exact ⟨rfl, rfl⟩
+    | some c' =>
+      obtain ⟨c, hc, e2⟩ := stepCreator_view_some structView (fun _ _ x => x) h e hsc
+      rw [hc]
+      simp only
+      obtain ⟨i1, i2⟩ := ih c c' e2
+      rw [i1, i2, structView_sstate e2, structView_holding e2]
+      exact ⟨rfl, rfl⟩
+
+/-- The specification is a function of the `structView`. -/
+theorem safeSpec_struct {s s' : KState} (h : SameStruct s s') {n n' : Node} (e : structView n' = structView n) :
+    safeSpec s' n' = safeSpec s n ∧ safeNHSpec s' n' = safeNHSpec s n := by
+  unfold safeSpec safeNHSpec
+  have hl : s'.nodes.length = s.nodes.length := by
+    have := congrArg List.length h
+    simpa using this
+  rw [hl]
+  exact safeSpecAux_struct h _ n n' e
+
+/-- The local equations are a property of the `safeView`. -/
+theorem bothLocal_safe {s s' : KState} (h : SameSafe s s') {n n' : Node} (e : safeView n' = safeView n)
+    (hb : BothLocal s n) : BothLocal s' n' := by
+  unfold BothLocal SafeLocal SafeNHLocal localSafe localSafeNH at *
+  rw [safeView_safe e, safeView_safeNH e]
+  cases hsc : stepCreator s' n' with
+  | none =>
+    rw [stepCreator_view_none safeView (fun _ _ => structView_of_safeView) h e hsc] at hb
+    exact hb
+  | some c' =>
+    obtain ⟨c, hc, e2⟩ := stepCreator_view_some safeView (fun _ _ => structView_of_safeView) h e hsc
+    rw [hc] at hb
+    simp only at hb ⊢
+    have e3 := structView_of_safeView e2
+    rw [safeView_safe e2, safeView_safeNH e2, structView_sstate e3, structView_holding e3]
+    exact hb
+
+theorem safeConsistent_safe {s s' : KState} (h : SameSafe s s') (hc : SafeConsistent s) : SafeConsistent s' := by
+  intro n' hn' hst
+  obtain ⟨n, hn, e⟩ := mem_of_map_eq safeView h hn'
+  have hk := structView_key (structView_of_safeView e)
+  exact bothLocal_safe h e (hc n hn (by rw [← hk]; exact hst))
+
+/-! ## The refresh computes the specification -/
+
+/-- **Incremental = from scratch.**  One row per key, acyclic step-creator links, the flag discipline
+in its weakest form: after the refresh the cached pair of every step is the value of the
+specification, computed on the state before (the refresh does not write what the specification reads)
+or after. -/
+theorem updateMetaSafe_eq_spec {s s' : KState} (hk : KeysUnique s) (hwf : StepCreatorWF s) (hc : CacheInvSafeW s)
+    (h : s.updateMetaSafe = .ok s') :
+    (∀ n' ∈ s'.nodes, n'.key.kind = .step → n'.safe = safeSpec s' n' ∧ n'.safeNH = safeNHSpec s' n') ∧
+    (∀ n' ∈ s'.nodes, n'.key.kind = .step → ∃ n ∈ s.nodes, n.key = n'.key ∧
+      n'.safe = safeSpec s n ∧ n'.safeNH = safeNHSpec s n) := by
+  have hst := (updateMetaSafe_frame h).struct
+  have hcons := updateMetaSafe_correct hk (noSelfStep_of_wf hwf) hc h
+  have huniq := safeConsistent_unique (stepCreatorWF_struct hst hwf) hcons
+  refine ⟨huniq, ?_⟩
+  intro n' hn' hs
+  obtain ⟨n, hn, e⟩ := mem_of_map_eq structView hst hn'
+  obtain ⟨u1, u2⟩ := huniq n' hn' hs
+  obtain ⟨e1, e2⟩ := safeSpec_struct hst e
+  exact ⟨n, hn, (structView_key e).symm, by rw [u1, e1], by rw [u2, e2]⟩
+
+/-! ## Dispatch -/
+
+open StepupModel.Generated in
+/-- The WHERE clause of `SELECT_NEXT_STEP` wants `_safe`, or a hash and `_safe_ignoring_hold`. -/
+theorem eligible_safe {s : KState} {cfg : KConfig} {n : Node} (h : s.eligible cfg n = true) :
+    n.key.kind = .step ∧ (n.safe = true ∨ (n.hasHash = true ∧ n.safeNH = true)) := by
+  unfold KState.eligible at h
+  simp only [Bool.and_eq_true, decide_eq_true_eq] at h
+  obtain ⟨⟨⟨⟨hk, hrow⟩, _⟩, _⟩, _⟩ := h
+  refine ⟨hk, ?_⟩
+  revert hrow
+  generalize n.sstate = a; generalize n.safe = b; generalize n.hasHash = c; generalize n.safeNH = d
+  generalize n.deferred = e; generalize n.impliedNeed = f; generalize n.ready = g
+  cases b
+  · cases c
+    · cases a <;> cases d <;> cases e <;> cases f <;> cases g <;> decide
+    · cases d
+      · cases a <;> cases e <;> cases f <;> cases g <;> decide
+      · intro _; exact .inr ⟨rfl, rfl⟩
+  · intro _; exact .inl rfl
+
+/-- **What dispatch may rely on.**  In a state whose steps satisfy the local equations (e.g. after a
+refresh under the flag discipline) with acyclic step-creator links, a step that `SELECT_NEXT_STEP`
+accepts has every recursive step creator RUNNING or SUCCEEDED and holding nothing, or it has a
+recorded hash (it is only checked, not run) and every recursive step creator is RUNNING or SUCCEEDED. -/
+theorem eligible_creators {s : KState} {cfg : KConfig} (hwf : StepCreatorWF s) (hc : SafeConsistent s)
+    {n : Node} (hn : n ∈ s.nodes) (h : s.eligible cfg n = true) :
+    (∀ a, StrictAnc s a n → a.sstate.active = true ∧ a.holding = 0) ∨
+    (n.hasHash = true ∧ ∀ a, StrictAnc s a n → a.sstate.active = true) := by
+  obtain ⟨hst, hs⟩ := eligible_safe h
+  obtain ⟨u1, u2⟩ := safeConsistent_unique hwf hc n hn hst
+  obtain ⟨i1, i2⟩ := safeSpec_iff hwf n hn hst
+  rcases hs with hs | ⟨hh, hs⟩
+  · exact .inl (i1.1 (u1 ▸ hs))
+  · exact .inr ⟨hh, i2.1 (u2 ▸ hs)⟩
+
+/-! ## Executable forms -/
+
+def bothLocalB (s : KState) (n : Node) : Bool := n.safe == localSafe s n && n.safeNH == localSafeNH s n
+
+theorem bothLocalB_iff {s : KState} {n : Node} : bothLocalB s n = true ↔ BothLocal s n := by
+  unfold bothLocalB BothLocal SafeLocal SafeNHLocal
+  simp only [Bool.and_eq_true, beq_iff_eq]
+
+def safeConsistentB (s : KState) : Bool :=
+  s.nodes.all fun n => !decide (n.key.kind = .step) || bothLocalB s n
+
+theorem safeConsistentB_iff {s : KState} : safeConsistentB s = true ↔ SafeConsistent s := by
+  unfold safeConsistentB SafeConsistent
+  simp only [List.all_eq_true, Bool.or_eq_true, Bool.not_eq_true', decide_eq_false_iff_not, bothLocalB_iff]
+  constructor
+  · intro h n hn hst
+    rcases h n hn with h1 | h1
+    · exact absurd hst h1
+    · exact h1
+  · intro h n hn
+    by_cases hst : n.key.kind = .step
+    · exact .inr (h n hn hst)
+    · exact .inl hst
+
+def cacheInvSafeB (s : KState) : Bool :=
+  s.nodes.all fun n => !decide (n.key.kind = .step) || n.checkSafe || bothLocalB s n
+
+theorem cacheInvSafeB_iff {s : KState} : cacheInvSafeB s = true ↔ CacheInvSafe s := by
+  unfold cacheInvSafeB CacheInvSafe
+  simp only [List.all_eq_true, Bool.or_eq_true, Bool.not_eq_true', decide_eq_false_iff_not, bothLocalB_iff]
+  constructor
+  · intro h n hn hst hf
+    rcases h n hn with (h1 | h1) | h1
+    · exact absurd hst h1
+    · rw [hf] at h1; cases h1
+    · exact h1
+  · intro h n hn
+    by_cases hst : n.key.kind = .step
+    · cases hf : n.checkSafe with
+      | true => exact .inl (.inr rfl)
+      | false => exact .inr (h n hn hst hf)
+    · exact .inl (.inl hst)
+
+/-- The weakest discipline, decided with the rows of `trace` (when the recursion ends). -/
+def cacheInvSafeWB (s : KState) : Bool :=
+  match allRows s with
+  | some rows => s.nodes.all fun n => !decide (n.key.kind = .step) || rows.any (·.key = n.key) || bothLocalB s n
+  | none => false
+
+theorem cacheInvSafeWB_sound {s : KState} (hk : KeysUnique s) (hs : NoSelfStep s) (h : cacheInvSafeWB s = true) :
+    CacheInvSafeW s := by
+  unfold cacheInvSafeWB at h
+  cases hr : allRows s with
+  | none => rw [hr] at h; cases h
+  | some rows =>
+    rw [hr] at h
+    have hrows := allRows_iff hr
+    simp only [List.all_eq_true, Bool.or_eq_true, Bool.not_eq_true', decide_eq_false_iff_not, bothLocalB_iff,
+      List.any_eq_true, decide_eq_true_eq] at h
+    intro n hn hst ht
+    rcases h n hn with (h1 | ⟨r, hr', hrk⟩) | h1
+    · exact absurd hst h1
+    · exact absurd ((hasRow_iff_touched hk hs hn hst).1 ⟨r, (hrows r).1 hr', hrk⟩) ht
+    · exact h1
+
+/-- A rank that drops along every step-creator link. -/
+def rankedB (s : KState) (rank : Key → Nat) : Bool :=
+  s.nodes.all fun n =>
+    match stepCreator s n with
+    | some c => decide (rank c.key < rank n.key)
+    | none => true
+
+theorem stepCreatorWF_of_rank {s : KState} (rank : Key → Nat) (h : rankedB s rank = true) : StepCreatorWF s := by
+  refine Subrelation.wf ?_ (InvImage.wf rank Nat.lt_wfRel.wf)
+  intro c k hl
+  obtain ⟨n, cn, hn, hk, _, hsc, hck⟩ := hl
+  unfold rankedB at h
+  have := List.all_eq_true.1 h n hn
+  rw [hsc] at this
+  simp only [decide_eq_true_eq] at this
+  show rank c < rank k
+  rw [← hk, ← hck]; exact this
+
+/-! ## The repaired defect, on the model
+
+`FILL_SAFE_UPDATE` once resolved duplicate rows with `MIN(depth)`.  The variant below differs from
+the model in that choice only. -/
+
+def pickMin (best : Option SafeRow) (r : SafeRow) : Option SafeRow :=
+  match best with
+  | none => some r
+  | some b => if r.depth < b.depth then some r else some b
+
+def bestRowMin (rows : List SafeRow) (k : Key) : Option SafeRow :=
+  (rows.filter (·.key = k)).foldl pickMin none
+
+def applyRowsMin (rows : List SafeRow) (n : Node) : Node :=
+  if rows.any (·.key = n.key) then
+    match bestRowMin rows n.key with
+    | some r => { n with safe := r.safe, safeNH := r.safeNH }
+    | none => n
+  else n
+
+/-- `_update_meta_safe` with `MIN(depth)` in place of `MAX(depth)`. -/
+def updateMetaSafeMin (s : KState) : M KState :=
+  if (flagged s).isEmpty then pure s
+  else match allRows s with
+    | none => throw .hang
+    | some rows => pure { s with nodes := s.nodes.map fun n => clearFlag (applyRowsMin rows n) }
+
+/-- `a` (RUNNING again, hence flagged) creates `b` (SUCCEEDED, not flagged, `_safe = 0` cached from
+the time when `a` was not active) creates `c` (flagged in the same refresh). -/
+def defectWitness : KState :=
+  { nodes := [
+      { key := rootKey, creator := some rootKey },
+      { key := stepKey "a", creator := some rootKey, sstate := .running, checkSafe := true, safe := true, safeNH := true },
+      { key := stepKey "b", creator := some (stepKey "a"), sstate := .succeeded, safe := false, safeNH := false },
+      { key := stepKey "c", creator := some (stepKey "b"), sstate := .pending, checkSafe := true, safe := false,
+        safeNH := false }] }
+
+def witnessRank (k : Key) : Nat :=
+  if k = stepKey "a" then 0 else if k = stepKey "b" then 1 else 2
+
+theorem defectWitness_keys : KeysUnique defectWitness := by
+  unfold KeysUnique; decide
+
+theorem defectWitness_wf : StepCreatorWF defectWitness :=
+  stepCreatorWF_of_rank witnessRank (by decide)
+
+/-- The witness obeys the flag discipline in its weakest form, not in the first form: `b` is
+neither flagged nor locally correct, but it is below the flagged `a`.  (That is the state the trigger
+`step_flag_check_safe` leaves: a state change flags the step itself, not its products.) -/
+theorem defectWitness_discipline : CacheInvSafeW defectWitness ∧ ¬ CacheInvSafe defectWitness :=
+  ⟨cacheInvSafeWB_sound defectWitness_keys (noSelfStep_of_wf defectWitness_wf) (by decide),
+    fun h => absurd (cacheInvSafeB_iff.2 h) (by decide)⟩
+
+/-- `trace` has two rows for `c`: its own seed (depth 0, from the stale cache of `b`) and the row
+derived from the seed of `a` (depth 2). -/
+theorem defectWitness_duplicates :
+    (allRows defectWitness).map (fun rows => (rows.filter (·.key = stepKey "c")).map fun r => (r.depth, r.safe, r.safeNH)) =
+      some [(0, false, false), (2, true, true)] := by decide
+
+/-- With `MAX(depth)` (the model, the repaired code) all local equations hold afterwards ... -/
+theorem defectWitness_max :
+    ∃ s', defectWitness.updateMetaSafe = .ok s' ∧ SafeConsistent s' ∧
+      s'.nodes.map (fun n => (n.safe, n.safeNH, n.checkSafe)) =
+        [(false, false, false), (true, true, false), (true, true, false), (true, true, false)] := by
+  have h : (match defectWitness.updateMetaSafe with
+      | .ok s' => safeConsistentB s' && decide (s'.nodes.map (fun n => (n.safe, n.safeNH, n.checkSafe)) =
+          [(false, false, false), (true, true, false), (true, true, false), (true, true, false)])
+      | .error _ => false) = true := by decide
+  cases hr : defectWitness.updateMetaSafe with
+  | error e => rw [hr] at h; cases h
+  | ok s' =>
+    rw [hr] at h
+    simp only [Bool.and_eq_true, decide_eq_true_eq] at h
+    exact ⟨s', rfl, safeConsistentB_iff.1 h.1, h.2⟩
+
+/-- ... with `MIN(depth)` the step `c` keeps the value derived from the stale cache of `b`: `_safe = 0`
+although its only step creators `b` and `a` are SUCCEEDED and RUNNING and hold nothing, and no flag is
+left to repair it. -/
+theorem defectWitness_min :
+    ∃ s', updateMetaSafeMin defectWitness = .ok s' ∧ ¬ SafeConsistent s' ∧
+      (∀ n ∈ s'.nodes, n.checkSafe = false) ∧
+      s'.nodes.map (fun n => (n.safe, n.safeNH)) = [(false, false), (true, true), (true, true), (false, false)] := by
+  have h : (match updateMetaSafeMin defectWitness with
+      | .ok s' => !safeConsistentB s' && s'.nodes.all (fun n => !n.checkSafe) &&
+          decide (s'.nodes.map (fun n => (n.safe, n.safeNH)) = [(false, false), (true, true), (true, true), (false, false)])
+      | .error _ => false) = true := by decide
+  cases hr : updateMetaSafeMin defectWitness with
+  | error e => rw [hr] at h; cases h
+  | ok s' =>
+    rw [hr] at h
+    simp only [Bool.and_eq_true, decide_eq_true_eq, Bool.not_eq_true', List.all_eq_true] at h
+    refine ⟨s', rfl, ?_, fun n hn => h.1.2 n hn, h.2⟩
+    intro hc
+    have := safeConsistentB_iff.2 hc
+    rw [h.1.1] at this; cases this
+
+/-! Non-vacuity: the hypotheses of the main theorems are met by a state with work to do. -/
+
+example : ∃ s', defectWitness.updateMetaSafe = .ok s' ∧ SafeFrame defectWitness s' ∧
+    (∀ n ∈ s'.nodes, n.key.kind = .step → n.checkSafe = false ∧ SafeLocal s' n ∧ SafeNHLocal s' n) :=
+  updateMetaSafe_spec defectWitness_keys defectWitness_wf defectWitness_discipline.1
+
+example : (flagged defectWitness).length = 2 := by decide
 
 end StepupModel.K.MetaSafe
